@@ -561,7 +561,18 @@ func sameContent(a, b bookContent) bool {
 // returns within milliseconds; if it does not return while the book lock is
 // held continuously for lockHeldLimit, it is a deadlock.
 func initWithWatch(dir, file string, useCache bool) (b *openingbook.Book, err error, hung bool, panicked string) {
-	b = openingbook.NewBook()
+	return initOnWithWatch(nil, dir, file, useCache)
+}
+
+// initOnWithWatch initialises a fresh Book (prev == nil) or re-initialises
+// prev after Reset(), the documented way to initialise a Book again.
+func initOnWithWatch(prev *openingbook.Book, dir, file string, useCache bool) (b *openingbook.Book, err error, hung bool, panicked string) {
+	if prev != nil {
+		b = prev
+		b.Reset()
+	} else {
+		b = openingbook.NewBook()
+	}
 	done := make(chan struct{})
 	go func() {
 		defer func() {
@@ -689,6 +700,10 @@ func RunCache(sc *Scenario) *CacheOut {
 	// (which depends on schedule-dependent links): the permille the offset was
 	// derived from, or 0 for sweeps
 	label := 0
+	// half of the runs re-initialise one Book object (Reset + Initialize)
+	// instead of creating a new one per initialisation
+	reuse := sc.Seed%2 == 1
+	live := b2
 	try := func(kind string, at int, data []byte, mode string) bool {
 		_ = os.RemoveAll(cache)
 		switch mode {
@@ -716,7 +731,20 @@ func RunCache(sc *Scenario) *CacheOut {
 		desc := fmt.Sprintf("cache %s at %d of %d bytes", kind, at, len(good))
 		// two initialisations in a row: the lock is package level
 		for rep := 0; rep < 2; rep++ {
-			b, e, hung, pan := initWithWatch(dir, file, true)
+			var prev *openingbook.Book
+			if reuse {
+				// one Book object lives through all initialisations of this run
+				prev = live
+				if prev != nil {
+					out.Faults["F9_reinit_same_book_object"]++
+				}
+			}
+			b, e, hung, pan := initOnWithWatch(prev, dir, file, true)
+			if !hung && pan == "" {
+				live = b
+			} else {
+				live = nil
+			}
 			if hung {
 				out.violate("init_hangs_lock_held", desc+fmt.Sprintf(": Initialize (attempt %d) does not return, the book lock stays held", rep+1))
 				return false
